@@ -108,10 +108,14 @@ def quick_configs():
         Config('none', []),
         Config('x86scalar', ['POPCNT', 'LZCNT', 'BMI2']),
         Config('sse2', ['SSE2']),
+        Config('ssse3', ['SSSE3']),                      # the SSSE3-without-SSE4.1 arms
+        Config('sse41', ['SSE4_1']),                     # the SSE4.1-without-SSE4.2 arms
         Config('sse42', ['SSE4_2']),
         Config('avx2', ['AVX2', 'FMA', 'LZCNT', 'BMI2']),
         Config('avx512f', ['AVX512F']),
         Config('avx512vl', ['AVX512VL']),
+        Config('avx512bwdq', ['AVX512BW', 'AVX512DQ']),                       # BW / DQ arms without VL and without CD
+        Config('avx512vlbitalg', ['AVX512VL', 'AVX512BW', 'AVX512BITALG']),   # BITALG arms without VPOPCNTDQ
         Config('avx512legacy', AVX512_LEGACY),
         Config('avx512full', AVX512_FULL),
         Config('avx512full-clang20', AVX512_FULL, cxx='clang++', std='c++20', opt='-O2'),
@@ -147,7 +151,12 @@ def thorough_configs():
         Config('avx512legacy-gcc17-O2', AVX512_LEGACY, std='c++17', opt='-O2'),
         Config('sse42-gcc20-O2', ['SSE4_2'], std='c++20', opt='-O2'),
     ]
-    return c
+    seen, out = set(), []
+    for x in c:                 # configurations promoted to the quick list keep their name: listed once
+        if x.name not in seen:
+            seen.add(x.name)
+            out.append(x)
+    return out
 
 
 def scalar_configs(tier):
